@@ -420,7 +420,8 @@ impl Group for Trace {
         let host = Host::unsecure("localhost", "/nonexistent", ext, host::Options::default());
         let data = HostCollection::builder().insert(host).build();
         let Some(srv) = TestServer::try_start(data) else { return "inconclusive: server did not start".into() };
-        let mut cl = StrictClient::new(std::net::TcpStream::connect(("127.0.0.1", srv.port)).unwrap());
+        let Some(stream) = crate::server::connect_retry(srv.port) else { srv.stop(); return "inconclusive: connect".into() };
+        let mut cl = StrictClient::new(stream);
         cl.stream.set_read_timeout(Some(std::time::Duration::from_secs(5))).unwrap();
         let _ = cl.send(b"GET /t HTTP/1.1\r\nhost: localhost\r\n\r\n");
         let r = cl.read_response(false);
